@@ -593,9 +593,9 @@ static void run_hook(const char *phase, const char *kind, void *object, int n, c
   rec_total++;
   star_groups(g, cells);
   collect_star(g, n, ints);
-  fprintf(out, "rec %s %s %d %d %d frozen=%d moved=%d entered=%d npyr=%d npri=%d nhex=%d nqua=%d valid=", phase, kind,
-          ints[0], n > 1 ? ints[1] : -1, n > 2 ? ints[2] : -1, frozen, moved, (is_end && spy_inside > 0) ? 1 : 0,
-          ref_cell_n(ref_grid_pyr(g)),
+  fprintf(out, "rec %s %s %d %d %d frozen=%d moved=%d entered=%d twod=%d npyr=%d npri=%d nhex=%d nqua=%d valid=", phase,
+          kind, ints[0], n > 1 ? ints[1] : -1, n > 2 ? ints[2] : -1, frozen, moved, (is_end && spy_inside > 0) ? 1 : 0,
+          ref_grid_twod(g) ? 1 : 0, ref_cell_n(ref_grid_pyr(g)),
           ref_cell_n(ref_grid_pri(g)), ref_cell_n(ref_grid_hex(g)), ref_cell_n(ref_grid_qua(g)));
   for (j = 0; j < 3; j++)
     fprintf(out, "%d", (j < n && ints[j] >= 0 && ref_node_valid(ref_node, ints[j])) ? 1 : 0);
@@ -624,7 +624,7 @@ static void run_level(void) {
     double h0, gr, zi, hmax, az;
     const char *p;
     char passes[32];
-    int k, bg;
+    int k, bg, twod;
     if (0 != strcmp(h_w[0], "run") || h_nw < 10 || strlen(h_w[1]) > 24 || !is_nat(h_w[2]) || !is_hex16(h_w[3]) ||
         !is_hex16(h_w[4]) || !is_hex16(h_w[5]) || !is_hex16(h_w[6]) || !is_hex16(h_w[7])) {
       fprintf(out, "done bad-op\n");
@@ -657,11 +657,16 @@ static void run_level(void) {
       continue;
     }
     ref_node = ref_grid_node(g);
+    /* triangles (+ quadrilaterals) without any volume cell: a planar 2-D grid; the grading then runs along y */
+    twod = (0 == ref_cell_n(ref_grid_tet(g)) && 0 == ref_cell_n(ref_grid_pyr(g)) && 0 == ref_cell_n(ref_grid_pri(g)) &&
+            0 == ref_cell_n(ref_grid_hex(g)) && 0 < ref_cell_n(ref_grid_tri(g)));
+    if (twod) ref_grid_twod(g) = REF_TRUE;
     each_ref_node_valid_node(ref_node, node) {
-      double z = ref_node_xyz(ref_node, 2, node);
+      double z = ref_node_xyz(ref_node, twod ? 1 : 2, node);
       double h = h0 + gr * (z > zi ? z - zi : 0.0);
       if (h > hmax) h = hmax;
-      if (REF_SUCCESS != ref_node_metric_form(ref_node, node, 1.0 / (h * h), 0, 0, 1.0 / (h * h), 0, az / (h * h)))
+      if (REF_SUCCESS !=
+          ref_node_metric_form(ref_node, node, 1.0 / (h * h), 0, 0, 1.0 / (h * h), 0, twod ? 1.0 : az / (h * h)))
         exit(7);
     }
     if (bg) { /* as `ref adapt -m`: vertex moves and new vertices re-interpolate the metric from a background copy */
@@ -677,17 +682,18 @@ static void run_level(void) {
         case 'a': s = ref_adapt_pass(g, &all_done); break;
         case 's': s = ref_split_pass(g); break;
         case 'c': s = ref_collapse_pass(g); break;
-        case 'w': s = ref_cavity_pass(g); break; /* what ref_adapt_swap runs on a 3-D grid */
+        case 'w': s = twod ? ref_swap_tri_pass(g) : ref_cavity_pass(g); break; /* the halves of ref_adapt_swap */
         case 'm': s = ref_smooth_pass(g); break;
         default: break;
       }
     }
     ref_verif_op_fcn = NULL;
     fprintf(out,
-            "done %s events=%d nrec=%d frozen_bad=%d frozen_end=%d nnode=%d ntet=%d ntri=%d split=%d collapse=%d "
-            "cavity=%d moved=%d\n",
-            h_status(s), ev_total, rec_total, frozen_bad, frozen_hash(g) == frozen0 ? 1 : 0, ref_node_n(ref_node),
-            ref_cell_n(ref_grid_tet(g)), ref_cell_n(ref_grid_tri(g)), accepted[1], accepted[2], accepted[7], moved_n);
+            "done %s events=%d nrec=%d frozen_bad=%d frozen_end=%d twod=%d nnode=%d ntet=%d ntri=%d split=%d collapse=%d "
+            "swap=%d cavity=%d moved=%d\n",
+            h_status(s), ev_total, rec_total, frozen_bad, frozen_hash(g) == frozen0 ? 1 : 0, twod, ref_node_n(ref_node),
+            ref_cell_n(ref_grid_tet(g)), ref_cell_n(ref_grid_tri(g)), accepted[1], accepted[2], accepted[3], accepted[7],
+            moved_n);
     ref_grid_free(g);
   }
 }
